@@ -512,9 +512,11 @@ impl<T: Storage> RawNode<T> {
             rd.ss = Some(ss);
         }
         let hs = raft.hard_state();
+        let mut term_or_vote_changed = false;
         if hs != self.prev_hs {
             if hs.vote != self.prev_hs.vote || hs.term != self.prev_hs.term {
                 rd.must_sync = true;
+                term_or_vote_changed = true;
             }
             rd.hs = Some(hs);
         }
@@ -552,7 +554,10 @@ impl<T: Storage> RawNode<T> {
 
         // Leader can send messages immediately to make replication concurrently.
         // For more details, check raft thesis 10.2.1.
-        rd.is_persisted_msg = raft.state != StateRole::Leader;
+        // But nothing sent as leader of a term may be released ahead of that term's hard
+        // state: a node that wins its election within a single step (a lone voter with
+        // learners) has not persisted its new term and vote yet.
+        rd.is_persisted_msg = raft.state != StateRole::Leader || term_or_vote_changed;
         rd.light = self.gen_light_ready();
         self.records.push_back(rd_record);
         rd
